@@ -37,6 +37,8 @@ pub enum Op {
     Advance(u64),
     SetLoad(f64),
     SetCpu(f32),
+    /// reload the same rules with the adaptive strategy of every rule flipped
+    FlipStrategy,
 }
 
 const RIN: &str = "c09-in";
@@ -49,6 +51,7 @@ struct Open {
 }
 
 pub struct C09 {
+    cfg0: Cfg,
     cfg: Cfg,
     ledger: Ledger,
     open: Vec<Open>,
@@ -62,7 +65,7 @@ pub struct C09 {
 
 impl C09 {
     pub fn new(cfg: &Cfg) -> Self {
-        C09 { cfg: cfg.clone(), ledger: Ledger::default(), open: vec![], load: 0.0, cpu: 0.0, admits: 0, rejects: 0, outbound: 0, bbr_spared: 0 }
+        C09 { cfg0: cfg.clone(), cfg: cfg.clone(), ledger: Ledger::default(), open: vec![], load: 0.0, cpu: 0.0, admits: 0, rejects: 0, outbound: 0, bbr_spared: 0 }
     }
     /// observed value of the rule's metric at time t, and whether it trips
     fn eval(&mut self, r: &RuleCfg, t: u64) -> (f64, bool) {
@@ -109,20 +112,8 @@ fn metric_of(m: Metric) -> system::MetricType {
     }
 }
 
-impl Subject for C09 {
-    type Op = Op;
-    fn reset(&mut self) {
-        for o in self.open.drain(..) {
-            o.e.exit();
-        }
-        reset_world(T0_MS + self.cfg.phase);
-        self.ledger.clear();
-        self.load = 0.0;
-        self.cpu = 0.0;
-        self.admits = 0;
-        self.rejects = 0;
-        self.outbound = 0;
-        self.bbr_spared = 0;
+impl C09 {
+    fn load_rules(&self) {
         system::load_rules(
             self.cfg
                 .rules
@@ -131,6 +122,25 @@ impl Subject for C09 {
                 .map(|(i, r)| Arc::new(system::Rule { id: format!("s{}", i), metric_type: metric_of(r.metric), threshold: r.threshold, strategy: if r.bbr { system::AdaptiveStrategy::BBR } else { system::AdaptiveStrategy::NoAdaptive } }))
                 .collect(),
         );
+    }
+}
+
+impl Subject for C09 {
+    type Op = Op;
+    fn reset(&mut self) {
+        for o in self.open.drain(..) {
+            o.e.exit();
+        }
+        self.cfg = self.cfg0.clone();
+        reset_world(T0_MS + self.cfg.phase);
+        self.ledger.clear();
+        self.load = 0.0;
+        self.cpu = 0.0;
+        self.admits = 0;
+        self.rejects = 0;
+        self.outbound = 0;
+        self.bbr_spared = 0;
+        self.load_rules();
     }
     fn enabled(&self) -> Vec<Op> {
         let mut v = vec![Op::Build { inbound: true }, Op::Build { inbound: false }];
@@ -146,6 +156,9 @@ impl Subject for C09 {
             for x in [th, th + 0.25, (th - 0.25).max(0.0)] {
                 v.push(Op::SetLoad(x));
             }
+        }
+        if uses(Metric::Load) || uses(Metric::CpuUsage) {
+            v.push(Op::FlipStrategy);
         }
         if uses(Metric::CpuUsage) {
             let th = self.cfg.rules.iter().find(|r| r.metric == Metric::CpuUsage).unwrap().threshold as f32;
@@ -166,6 +179,12 @@ impl Subject for C09 {
             Op::SetCpu(x) => {
                 self.cpu = *x;
                 system_metric::verif_set_cpu_usage(*x);
+            }
+            Op::FlipStrategy => {
+                for r in self.cfg.rules.iter_mut() {
+                    r.bbr = !r.bbr;
+                }
+                self.load_rules();
             }
             Op::Exit(i) => {
                 let o = self.open.remove(*i);
